@@ -1,7 +1,7 @@
 (* Property C07 — clone fidelity and independence.  Only statements and [exact]; proofs live in Proofs/SymCoreC07.v,
    Proofs/SymCoreClone.v. *)
 From PG Require Import Common.Tactics Model.SymCoreDefs Model.SymCoreOps Model.SymCoreSpec
-     Proofs.SymCoreBase Proofs.SymCoreWF Proofs.SymCoreClone Proofs.SymCoreWFOps Proofs.SymCoreC07.
+     Proofs.SymCoreBase Proofs.SymCoreWF Proofs.SymCoreClone Proofs.SymCoreWFOps Proofs.SymCoreIds Proofs.SymCoreFrame Proofs.SymCoreC07.
 From Coq Require Import NArith.
 
 (* What a clone step does: the copy [clone_at ...] of the node found at the position is appended as a new root; every
@@ -76,3 +76,18 @@ Theorem C07_dict_copy_is_clone : forall q st sc ps tid pa pt fl its,
   step q st (mkSop sc ps DCopy) = step q st (mkSop sc ps (Clone 0)).
 Proof. exact dict_copy_is_clone. Qed.
 Print Assumptions C07_dict_copy_is_clone.
+
+(* Independence.  The frame property of a step: an operation addressed inside one root and handed values from some other
+   roots ([touched o]) leaves every OTHER tree the user holds exactly as it was.  With C07_clone_fresh (the copy is a new
+   root of fresh ids) no mutation of the original is observable through the copy and vice versa ... *)
+Theorem C07_independence : forall q st o r t,
+  WF st -> ~ In r (touched o) -> nth_error (roots st) r = Some (Live t) ->
+  nth_error (roots (fst (step q st o))) r = Some (Live t).
+Proof. exact frame_WF. Qed.
+Print Assumptions C07_independence.
+(* ... for any later history of operations that do not address it. *)
+Theorem C07_independence_history : forall q ops st r t,
+  WF st -> Forall (fun o => ~ In r (touched o)) ops -> nth_error (roots st) r = Some (Live t) ->
+  nth_error (roots (run_ops q st ops)) r = Some (Live t).
+Proof. exact frame_history_WF. Qed.
+Print Assumptions C07_independence_history.
